@@ -11,6 +11,9 @@ Proof. destruct e; cbn; split; congruence. Qed.
 Lemma is_err_true : forall e, is_err e = true <-> e <> ENone.
 Proof. destruct e; cbn; split; congruence. Qed.
 
+Arguments Model.frev : simpl never.
+Arguments Model.nlen : simpl never.
+
 Section SinkProofs.
   Variable A : Type.
 
@@ -142,7 +145,7 @@ Section SinkProofs.
         * congruence.
         * congruence.
         * left. reflexivity.
-        * intros _. split; [lia|]. exists k. reflexivity.
+        * intros _. split; [lia|]. exists k. exact Ef.
         * congruence.
     - destruct (s_fired s || (s_pos s + nlen p <=? k)) eqn:Ele.
       + inversion H; subst; clear H. split.
@@ -171,5 +174,687 @@ Section SinkProofs.
         * right. split; [lia|]. split; reflexivity.
         * congruence.
         * congruence.
+  Qed.
+
+  (** *** bufio.Writer *)
+  Definition wf_buf (b : bufw) : Prop := b_n b = nlen (b_rev b).
+
+  (* what the destination holds followed by what is still buffered *)
+  Definition cont (s : sink) (b : bufw) : list A := sink_bytes s ++ frev (b_rev b).
+
+  Lemma frev_frev : forall l : list A, frev (frev l) = l.
+  Proof. intros. rewrite !frev_rev. apply rev_involutive. Qed.
+
+  Lemma b_push_wf : forall (b : bufw) c, wf_buf b -> wf_buf (b_push A b c).
+  Proof. unfold wf_buf, b_push. intros. cbn. rewrite nlen_rev_append. lia. Qed.
+
+  Lemma b_push_bytes : forall (b : bufw) c, frev (b_rev (b_push A b c)) = frev (b_rev b) ++ c.
+  Proof. intros. cbn. apply frev_rev_append. Qed.
+
+  Record flush_post (s : sink) (b : bufw) (s' : sink) (b' : bufw) (e : err) : Prop := {
+    fl_wfs : wf_sink s';
+    fl_wfb : wf_buf b';
+    fl_cont : cont s' b' = cont s b;
+    fl_flt : s_flt s' = s_flt s;
+    fl_size : b_size b' = b_size b;
+    fl_err : b_err b' = e;
+    fl_ok : e = ENone -> b_rev b' = [] /\ b_n b' = 0;
+    fl_nofault : s_flt s = NoFault -> b_err b = ENone -> e = ENone;
+    fl_fired : s_fired s = true -> s_fired s' = true
+  }.
+
+  Lemma sw_fired_mono : forall (s : sink) p s' n e,
+    sink_write_post s p s' n e -> s_fired s = true -> s_fired s' = true.
+  Proof. intros s p s' n e H Hf. destruct (sw_fired _ _ _ _ _ H) as [E|(_&_&E)]; congruence. Qed.
+
+  Lemma bufio_flush_spec : forall (s : sink) (b : bufw) s' b' e,
+    wf_sink s -> wf_buf b -> bufio_flush A s b = (s', b', e) -> flush_post s b s' b' e.
+  Proof.
+    intros s b s' b' e Hs Hb H. unfold bufio_flush in H.
+    destruct (is_err (b_err b)) eqn:Eerr.
+    { inversion H; subst; clear H. split; try reflexivity; try assumption.
+      - intros E. rewrite E in Eerr. discriminate.
+      - intros _ E. rewrite E in Eerr. discriminate.
+      - intros F; exact F. }
+    destruct (b_n b =? 0) eqn:En.
+    { inversion H; subst; clear H. apply is_err_none in Eerr. split; try reflexivity; try assumption.
+      - intros _. split; [|lia]. apply nlen_zero. unfold wf_buf in Hb. lia.
+      - intros F; exact F. }
+    destruct (sink_write A s (frev (b_rev b))) as [[s1 n] e1] eqn:Ew.
+    pose proof (sink_write_spec _ _ _ _ _ Hs Ew) as P.
+    assert (Hdata : nlen (frev (b_rev b)) = b_n b) by (rewrite nlen_frev; symmetry; exact Hb).
+    destruct (is_err (if negb (is_err e1) && (n <? b_n b) then EShort else e1)) eqn:Ee.
+    - inversion H; subst; clear H. split.
+      + apply (sw_wf _ _ _ _ _ P).
+      + unfold wf_buf. cbn. rewrite nlen_frev, nlen_skipn. lia.
+      + unfold cont. cbn. rewrite (sw_bytes _ _ _ _ _ P), frev_frev, <- app_assoc, firstn_skipn. reflexivity.
+      + apply (sw_flt _ _ _ _ _ P).
+      + reflexivity.
+      + reflexivity.
+      + intros E. rewrite E in Ee. discriminate.
+      + intros Hnf _. pose proof (sw_nofault _ _ _ _ _ P Hnf) as E1. subst e1. cbn in *.
+        destruct (sw_full _ _ _ _ _ P eq_refl) as [Hn|(Hn&Hf&_)].
+        * assert (n <? b_n b = false) by lia. rewrite H in Ee. discriminate.
+        * exfalso. destruct Hs as [_ Hs]. rewrite Hnf in Hs.
+          pose proof (sw_fired _ _ _ _ _ P) as F. pose proof (sw_wf _ _ _ _ _ P) as W.
+          unfold sink_write in Ew. rewrite Hnf in Ew. inversion Ew; subst. lia.
+      + apply (sw_fired_mono _ _ _ _ _ P).
+    - inversion H; subst; clear H.
+      assert (E1 : e1 = ENone).
+      { destruct e1; cbn in Ee; try discriminate; reflexivity. }
+      subst e1. cbn in Ee.
+      assert (Hn : n = b_n b).
+      { destruct (n <? b_n b) eqn:L; [discriminate|]. pose proof (sw_le _ _ _ _ _ P). lia. }
+      split.
+      + apply (sw_wf _ _ _ _ _ P).
+      + reflexivity.
+      + unfold cont. cbn. rewrite (sw_bytes _ _ _ _ _ P), Hn, <- Hdata, firstn_nlen, app_nil_r. reflexivity.
+      + apply (sw_flt _ _ _ _ _ P).
+      + reflexivity.
+      + reflexivity.
+      + intros _. split; reflexivity.
+      + reflexivity.
+      + apply (sw_fired_mono _ _ _ _ _ P).
+  Qed.
+
+  Lemma split_combine : forall (n n2 : N) (p : list A),
+    n <= nlen p -> n2 <= nlen (skipn (N.to_nat n) p) ->
+    firstn (N.to_nat n) p ++ firstn (N.to_nat n2) (skipn (N.to_nat n) p) = firstn (N.to_nat (n + n2)) p /\
+    skipn (N.to_nat n2) (skipn (N.to_nat n) p) = skipn (N.to_nat (n + n2)) p /\
+    n + n2 <= nlen p.
+  Proof.
+    intros n n2 p H1 H2. rewrite nlen_skipn in H2.
+    rewrite N2Nat.inj_add, firstn_add, skipn_add. repeat split; lia.
+  Qed.
+
+  Record loop_post (s : sink) (b : bufw) (p : list A) (nn : N)
+                   (s' : sink) (b' : bufw) (p' : list A) (nn' : N) : Prop := {
+    lp_wfs : wf_sink s';
+    lp_wfb : wf_buf b';
+    lp_n : exists n, nn' = nn + n /\ n <= nlen p /\ p' = skipn (N.to_nat n) p /\
+                     cont s' b' = cont s b ++ firstn (N.to_nat n) p;
+    lp_flt : s_flt s' = s_flt s;
+    lp_size : b_size b' = b_size b;
+    lp_fired : s_fired s = true -> s_fired s' = true
+  }.
+
+  Lemma bufio_loop_spec : forall direct fuel (s : sink) (b : bufw) p nn s' b' p' nn',
+    wf_sink s -> wf_buf b ->
+    bufio_loop A direct fuel s b p nn = (s', b', p', nn') ->
+    loop_post s b p nn s' b' p' nn'.
+  Proof.
+    intros direct fuel. induction fuel as [|f IH]; intros s b p nn s' b' p' nn' Hs Hb H.
+    - cbn in H. inversion H; subst; clear H. split; auto.
+      exists 0. cbn. rewrite app_nil_r. repeat split; lia.
+    - cbn [bufio_loop] in H.
+      destruct ((b_avail A b <? nlen p) && negb (is_err (b_err b))) eqn:G.
+      2:{ inversion H; subst; clear H. split; auto.
+          exists 0. cbn. rewrite app_nil_r. repeat split; lia. }
+      destruct (direct && (b_n b =? 0)) eqn:D.
+      + apply andb_true_iff in D. destruct D as [_ D].
+        assert (Hnil : b_rev b = []) by (apply nlen_zero; unfold wf_buf in Hb; lia).
+        destruct (sink_write A s p) as [[s1 n] e1] eqn:Ew.
+        pose proof (sink_write_spec _ _ _ _ _ Hs Ew) as P.
+        apply IH in H; [| apply (sw_wf _ _ _ _ _ P) | unfold wf_buf in *; cbn; exact Hb].
+        destruct H as [W1 W2 (n2 & E1 & E2 & E3 & E4) F1 F2 F3].
+        destruct (split_combine n n2 p (sw_le _ _ _ _ _ P) E2) as (C1 & C2 & C3).
+        split; auto.
+        * exists (n + n2). repeat split; [lia | exact C3 | rewrite E3; exact C2 |].
+          rewrite E4. unfold cont. cbn [b_rev]. rewrite (sw_bytes _ _ _ _ _ P), Hnil.
+          change (frev []) with (@nil A). rewrite !app_nil_r, <- app_assoc, C1. reflexivity.
+        * rewrite F1. apply (sw_flt _ _ _ _ _ P).
+        * intros Hf. apply F3. apply (sw_fired_mono _ _ _ _ _ P Hf).
+      + set (n := N.min (b_avail A b) (nlen p)) in *.
+        destruct (bufio_flush A s (b_push A b (firstn (N.to_nat n) p))) as [[s1 b2] e1] eqn:Ef.
+        pose proof (bufio_flush_spec _ _ _ _ _ Hs (b_push_wf _ _ Hb) Ef) as P.
+        apply IH in H; [| apply (fl_wfs _ _ _ _ _ P) | apply (fl_wfb _ _ _ _ _ P)].
+        destruct H as [W1 W2 (n2 & E1 & E2 & E3 & E4) F1 F2 F3].
+        assert (Hn : n <= nlen p) by lia.
+        destruct (split_combine n n2 p Hn E2) as (C1 & C2 & C3).
+        split; auto.
+        * exists (n + n2). repeat split; [lia | exact C3 | rewrite E3; exact C2 |].
+          rewrite E4, (fl_cont _ _ _ _ _ P). unfold cont. rewrite b_push_bytes.
+          rewrite <- !app_assoc, C1. reflexivity.
+        * rewrite F1. apply (fl_flt _ _ _ _ _ P).
+        * rewrite F2. apply (fl_size _ _ _ _ _ P).
+        * intros Hf. apply F3. apply (fl_fired _ _ _ _ _ P Hf).
+  Qed.
+
+  (** what a Write/WriteString on the bufio.Writer guarantees *)
+  Record write_post (c c' : list A) (p : list A) (n : N) (e : err) (buffered : bool) : Prop := {
+    wp_le : n <= nlen p;
+    wp_cont : c' = c ++ firstn (N.to_nat n) p;
+    wp_full : buffered = true -> e = ENone -> n = nlen p
+  }.
+
+  Lemma bufio_write_gen_spec : forall direct (s : sink) (b : bufw) p s' b' n e,
+    wf_sink s -> wf_buf b ->
+    bufio_write_gen A direct s b p = (s', b', n, e) ->
+    wf_sink s' /\ wf_buf b' /\ s_flt s' = s_flt s /\ b_size b' = b_size b /\
+    (s_fired s = true -> s_fired s' = true) /\
+    write_post (cont s b) (cont s' b') p n e true.
+  Proof.
+    intros direct s b p s' b' n e Hs Hb H. unfold bufio_write_gen in H.
+    destruct (bufio_loop A direct (bufio_fuel A p) s b p 0) as [[[s1 b1] p1] nn] eqn:El.
+    pose proof (bufio_loop_spec _ _ _ _ _ _ _ _ _ _ Hs Hb El) as [W1 W2 (n1 & E1 & E2 & E3 & E4) F1 F2 F3].
+    destruct (is_err (b_err b1)) eqn:Ee.
+    { inversion H; subst; clear H.
+      split; [exact W1|]. split; [exact W2|]. split; [exact F1|]. split; [exact F2|]. split; [exact F3|].
+      split.
+      - lia.
+      - replace (0 + n1) with n1 by lia. exact E4.
+      - intros _ E. rewrite E in Ee. discriminate. }
+    destruct (b_avail A b1 <? nlen p1) eqn:Ea.
+    { inversion H; subst; clear H.
+      split; [exact W1|]. split; [exact W2|]. split; [exact F1|]. split; [exact F2|]. split; [exact F3|].
+      split.
+      - lia.
+      - replace (0 + n1) with n1 by lia. exact E4.
+      - intros _ E. discriminate. }
+    inversion H; subst; clear H.
+    assert (Hp1 : nlen (skipn (N.to_nat n1) p) <= nlen (skipn (N.to_nat n1) p)) by lia.
+    destruct (split_combine n1 _ p E2 Hp1) as (C1 & C2 & C3).
+    rewrite firstn_nlen in C1.
+    split; [exact W1|]. split; [apply b_push_wf; exact W2|]. split; [exact F1|]. split; [exact F2|]. split; [exact F3|].
+    split.
+    - lia.
+    - unfold cont in *. rewrite b_push_bytes, app_assoc, E4, <- app_assoc.
+      replace (0 + n1 + nlen (skipn (N.to_nat n1) p)) with (n1 + nlen (skipn (N.to_nat n1) p)) by lia.
+      rewrite <- C1. reflexivity.
+    - intros _ _. rewrite nlen_skipn. lia.
+  Qed.
+
+  (** *** the writer below offsetTrackingWriter, and offsetTrackingWriter *)
+  Definition wf_st (t : st) : Prop :=
+    wf_sink (snk t) /\ match bw t with Some b => wf_buf b | None => True end.
+
+  Definition buffered (t : st) : bool := match bw t with Some _ => true | None => false end.
+
+  Definition same_shape (t t' : st) : Prop :=
+    s_flt (snk t') = s_flt (snk t) /\ buffered t' = buffered t /\
+    (s_fired (snk t) = true -> s_fired (snk t') = true).
+
+  Lemma same_shape_refl : forall t, same_shape t t.
+  Proof. intros. repeat split; auto. Qed.
+
+  Lemma same_shape_trans : forall t1 t2 t3, same_shape t1 t2 -> same_shape t2 t3 -> same_shape t1 t3.
+  Proof. intros t1 t2 t3 (A1&A2&A3) (B1&B2&B3). repeat split; try congruence. auto. Qed.
+
+  Lemma content_raw : forall s, content (mkSt s None) = sink_bytes s.
+  Proof. intros. unfold Model.content. cbn. apply app_nil_r. Qed.
+
+  Lemma content_buf : forall s b, content (mkSt s (Some b)) = cont s b.
+  Proof. reflexivity. Qed.
+
+  Definition w_post (t : st) (p : list A) (t' : st) (n : N) (e : err) (full : bool) : Prop :=
+    wf_st t' /\ same_shape t t' /\ write_post (content t) (content t') p n e full.
+
+  Lemma lower_gen_spec : forall direct (t : st) p t' n e,
+    wf_st t ->
+    match bw t with
+    | None => let '(s, n, e) := sink_write A (snk t) p in (mkSt s None, n, e)
+    | Some b => let '(s, b', n, e) := bufio_write_gen A direct (snk t) b p in (mkSt s (Some b'), n, e)
+    end = (t', n, e) ->
+    w_post t p t' n e (buffered t).
+  Proof.
+    intros direct [s ob] p t' n e [Hs Hb] H. cbn in *. destruct ob as [b|].
+    - destruct (bufio_write_gen A direct s b p) as [[[s1 b1] n1] e1] eqn:E.
+      inversion H; subst; clear H.
+      destruct (bufio_write_gen_spec _ _ _ _ _ _ _ _ Hs Hb E) as (W1&W2&F1&F2&F3&P).
+      split; [split; assumption|]. split; [repeat split; assumption|]. exact P.
+    - destruct (sink_write A s p) as [[s1 n1] e1] eqn:E.
+      inversion H; subst; clear H.
+      pose proof (sink_write_spec _ _ _ _ _ Hs E) as P.
+      split; [split; [apply (sw_wf _ _ _ _ _ P) | exact I]|].
+      split; [repeat split; [apply (sw_flt _ _ _ _ _ P) | apply (sw_fired_mono _ _ _ _ _ P)]|].
+      rewrite !content_raw. split.
+      + apply (sw_le _ _ _ _ _ P).
+      + apply (sw_bytes _ _ _ _ _ P).
+      + cbn. discriminate.
+  Qed.
+
+  Lemma lower_write_spec : forall (t : st) p t' n e,
+    wf_st t -> lower_write A t p = (t', n, e) -> w_post t p t' n e (buffered t).
+  Proof. intros. eapply lower_gen_spec; eauto. Qed.
+
+  Lemma lower_write_string_spec : forall (t : st) p t' n e,
+    wf_st t -> lower_write_string A t p = (t', n, e) -> w_post t p t' n e (buffered t).
+  Proof. intros. eapply lower_gen_spec; eauto. Qed.
+
+  (* the repaired offsetTrackingWriter: a nil error means every byte was taken *)
+  Lemma otw_fix_spec : forall (t : st) p r t' n e full,
+    (forall t1 n1 e1, r = (t1, n1, e1) -> w_post t p t1 n1 e1 full) ->
+    otw_fix A true (nlen p) r = (t', n, e) -> w_post t p t' n e true.
+  Proof.
+    intros t p [[t1 n1] e1] t' n e full Hr H. specialize (Hr _ _ _ eq_refl).
+    destruct Hr as (W&S&[L C F]). unfold otw_fix in H. cbn [andb] in H.
+    destruct (negb (is_err e1) && (n1 <? nlen p)) eqn:G; inversion H; subst; clear H.
+    - split; [exact W|]. split; [exact S|]. split; auto. discriminate.
+    - split; [exact W|]. split; [exact S|]. split; auto.
+      intros _ E. subst. cbn in G. lia.
+  Qed.
+
+  Lemma otw_write_spec : forall (t : st) p t' n e,
+    wf_st t -> otw_write A true t p = (t', n, e) -> w_post t p t' n e true.
+  Proof.
+    intros t p t' n e W H. unfold otw_write in H.
+    eapply otw_fix_spec; [|exact H]. intros. eapply lower_write_spec; eauto.
+  Qed.
+
+  Lemma otw_write_string_spec : forall (t : st) p t' n e,
+    wf_st t -> otw_write_string A true t p = (t', n, e) -> w_post t p t' n e true.
+  Proof.
+    intros t p t' n e W H. unfold otw_write_string in H.
+    eapply otw_fix_spec; [|exact H]. intros. eapply lower_write_string_spec; eauto.
+  Qed.
+
+  (** *** write sites *)
+  Definition op_post (t t' : st) (e : err) (data : list A) : Prop :=
+    wf_st t' /\ same_shape t t' /\ (e = ENone -> content t' = content t ++ data).
+
+  Lemma write_pieces_spec : forall ps (t t' : st) e,
+    wf_st t -> write_pieces A true t ps = (t', e) -> op_post t t' e (site_data_of A ps).
+  Proof.
+    induction ps as [|pc ps IH]; intros t t' e W H; cbn in H.
+    - inversion H; subst. split; [exact W|]. split; [apply same_shape_refl|].
+      intros _. cbn. now rewrite app_nil_r.
+    - destruct (write_piece A true t pc) as [[t1 n1] e1] eqn:E.
+      assert (P : w_post t (snd pc) t1 n1 e1 true).
+      { unfold write_piece in E. destruct (fst pc); [eapply otw_write_string_spec | eapply otw_write_spec]; eauto. }
+      destruct P as (W1&S1&[L C F]).
+      destruct (is_err e1) eqn:Ee.
+      + inversion H; subst; clear H. split; [exact W1|]. split; [exact S1|].
+        intros E'. subst. discriminate.
+      + apply is_err_none in Ee. subst e1.
+        destruct (IH _ _ _ W1 H) as (W2&S2&C2).
+        split; [exact W2|]. split; [eapply same_shape_trans; eauto|].
+        intros E'. rewrite (C2 E'), C, (F eq_refl eq_refl), firstn_nlen.
+        unfold site_data_of. cbn. now rewrite app_assoc.
+  Qed.
+
+  (* any Write-like function: the bytes it reports are the bytes it took *)
+  Definition writer_ok (w : st -> list A -> st * N * err) : Prop :=
+    forall t c t' n e, wf_st t -> w t c = (t', n, e) -> exists full, w_post t c t' n e full.
+
+  Lemma retry_spec : forall w, writer_ok w -> forall fuel c (t t' : st) e,
+    wf_st t -> retry A w fuel t c = (t', e) -> op_post t t' e c.
+  Proof.
+    intros w Hw. induction fuel as [|f IH]; intros c t t' e W H.
+    - destruct c; cbn in H; inversion H; subst; clear H.
+      + split; [exact W|]. split; [apply same_shape_refl|]. intros _. now rewrite app_nil_r.
+      + split; [exact W|]. split; [apply same_shape_refl|]. discriminate.
+    - destruct c as [|x c].
+      { cbn in H. inversion H; subst. split; [exact W|]. split; [apply same_shape_refl|]. intros _. now rewrite app_nil_r. }
+      cbn [retry] in H. remember (x :: c) as cc.
+      destruct (w t cc) as [[t1 n1] e1] eqn:E.
+      destruct (Hw _ _ _ _ _ W E) as (full & W1 & S1 & [L C F]).
+      destruct (is_err e1) eqn:Ee.
+      + inversion H; subst t' e; clear H. split; [exact W1|]. split; [exact S1|].
+        intros E'. subst. discriminate.
+      + destruct (IH _ _ _ _ W1 H) as (W2&S2&C2).
+        split; [exact W2|]. split; [eapply same_shape_trans; eauto|].
+        intros E'. rewrite (C2 E'), C, <- app_assoc, firstn_skipn. reflexivity.
+  Qed.
+
+  Lemma write_to_spec : forall w, writer_ok w -> forall chunks (t t' : st) e,
+    wf_st t -> write_to A w t chunks = (t', e) -> op_post t t' e (site_data_of A chunks).
+  Proof.
+    intros w Hw. induction chunks as [|c r IH]; intros t t' e W H; cbn in H.
+    - inversion H; subst. split; [exact W|]. split; [apply same_shape_refl|].
+      intros _. cbn. now rewrite app_nil_r.
+    - destruct (retry A w (length (snd c) + 2) t (snd c)) as [t1 e1] eqn:E.
+      destruct (retry_spec w Hw _ _ _ _ _ W E) as (W1&S1&C1).
+      destruct (is_err e1) eqn:Ee.
+      + inversion H; subst; clear H. split; [exact W1|]. split; [exact S1|].
+        intros E'. subst. discriminate.
+      + apply is_err_none in Ee. subst e1.
+        destruct (IH _ _ _ W1 H) as (W2&S2&C2).
+        split; [exact W2|]. split; [eapply same_shape_trans; eauto|].
+        intros E'. rewrite (C2 E'), (C1 eq_refl). unfold site_data_of. cbn. now rewrite app_assoc.
+  Qed.
+
+  Lemma writer_ok_otw : writer_ok (otw_write A true).
+  Proof. intros t c t' n e W H. exists true. eapply otw_write_spec; eauto. Qed.
+
+  Lemma writer_ok_lower : writer_ok (lower_write A).
+  Proof. intros t c t' n e W H. eexists. eapply lower_write_spec; eauto. Qed.
+
+  Lemma copy_loop_spec : forall chunks (s s' : sink) e,
+    wf_sink s -> copy_loop A s chunks = (s', e) ->
+    wf_sink s' /\ s_flt s' = s_flt s /\ (s_fired s = true -> s_fired s' = true) /\
+    (e = ENone -> sink_bytes s' = sink_bytes s ++ site_data_of A chunks).
+  Proof.
+    induction chunks as [|c r IH]; intros s s' e W H; cbn in H.
+    - inversion H; subst. split; [exact W|]. split; [reflexivity|]. split; [auto|].
+      intros _. cbn. now rewrite app_nil_r.
+    - destruct (sink_write A s (snd c)) as [[s1 n1] e1] eqn:E.
+      pose proof (sink_write_spec _ _ _ _ _ W E) as P.
+      destruct (is_err e1) eqn:Ee.
+      { inversion H; subst; clear H.
+        split; [apply (sw_wf _ _ _ _ _ P)|]. split; [apply (sw_flt _ _ _ _ _ P)|].
+        split; [apply (sw_fired_mono _ _ _ _ _ P)|]. intros E'. subst. discriminate. }
+      destruct (n1 <? nlen (snd c)) eqn:L.
+      { inversion H; subst; clear H.
+        split; [apply (sw_wf _ _ _ _ _ P)|]. split; [apply (sw_flt _ _ _ _ _ P)|].
+        split; [apply (sw_fired_mono _ _ _ _ _ P)|]. discriminate. }
+      destruct (IH _ _ _ (sw_wf _ _ _ _ _ P) H) as (W2&F2&M2&C2).
+      split; [exact W2|]. split; [rewrite F2; apply (sw_flt _ _ _ _ _ P)|].
+      split; [intros Hf; apply M2; apply (sw_fired_mono _ _ _ _ _ P Hf)|].
+      intros E'. rewrite (C2 E'), (sw_bytes _ _ _ _ _ P).
+      assert (n1 = nlen (snd c)) by (pose proof (sw_le _ _ _ _ _ P); lia). subst n1.
+      rewrite firstn_nlen. unfold site_data_of. cbn. now rewrite app_assoc.
+  Qed.
+
+  Lemma cont_push : forall (s : sink) (b : bufw) c, cont s (b_push A b c) = cont s b ++ c.
+  Proof. intros. unfold cont. rewrite b_push_bytes. now rewrite app_assoc. Qed.
+
+  Lemma bufio_fill_spec : forall data (s : sink) (b : bufw) s' b' e,
+    wf_sink s -> wf_buf b -> bufio_fill A s b data = (s', b', e) ->
+    wf_sink s' /\ wf_buf b' /\ s_flt s' = s_flt s /\ (s_fired s = true -> s_fired s' = true) /\
+    (e = ENone -> cont s' b' = cont s b ++ data).
+  Proof.
+    induction data as [|x r IH]; intros s b s' b' e Ws Wb H; cbn [bufio_fill] in H.
+    - destruct (b_avail A b =? 0).
+      + pose proof (bufio_flush_spec _ _ _ _ _ Ws Wb H) as P.
+        split; [apply (fl_wfs _ _ _ _ _ P)|]. split; [apply (fl_wfb _ _ _ _ _ P)|].
+        split; [apply (fl_flt _ _ _ _ _ P)|]. split; [apply (fl_fired _ _ _ _ _ P)|].
+        intros _. rewrite (fl_cont _ _ _ _ _ P). now rewrite app_nil_r.
+      + inversion H; subst. split; [exact Ws|]. split; [exact Wb|]. split; [reflexivity|]. split; [auto|].
+        intros _. now rewrite app_nil_r.
+    - destruct (b_avail A b =? 0).
+      + destruct (bufio_flush A s b) as [[s1 b1] e1] eqn:Ef.
+        pose proof (bufio_flush_spec _ _ _ _ _ Ws Wb Ef) as P.
+        destruct (is_err e1) eqn:Ee.
+        * inversion H; subst; clear H.
+          split; [apply (fl_wfs _ _ _ _ _ P)|]. split; [apply (fl_wfb _ _ _ _ _ P)|].
+          split; [apply (fl_flt _ _ _ _ _ P)|]. split; [apply (fl_fired _ _ _ _ _ P)|].
+          intros E'. subst. discriminate.
+        * destruct (IH _ _ _ _ _ (fl_wfs _ _ _ _ _ P) (b_push_wf _ [x] (fl_wfb _ _ _ _ _ P)) H) as (W1&W2&F&M&C).
+          split; [exact W1|]. split; [exact W2|]. split; [rewrite F; apply (fl_flt _ _ _ _ _ P)|].
+          split; [intros Hf; apply M; apply (fl_fired _ _ _ _ _ P Hf)|].
+          intros E'. rewrite (C E'), cont_push, (fl_cont _ _ _ _ _ P), <- app_assoc. reflexivity.
+      + destruct (IH _ _ _ _ _ Ws (b_push_wf _ [x] Wb) H) as (W1&W2&F&M&C).
+        split; [exact W1|]. split; [exact W2|]. split; [exact F|]. split; [exact M|].
+        intros E'. rewrite (C E'), cont_push, <- app_assoc. reflexivity.
+  Qed.
+
+  Lemma run_mech_spec : forall m ps (t t' : st) e,
+    wf_st t -> run_mech A true m t ps = (t', e) -> op_post t t' e (site_data_of A ps).
+  Proof.
+    intros m ps t t' e W H. destruct m; cbn [run_mech] in H.
+    - eapply write_pieces_spec; eauto.
+    - eapply write_to_spec; eauto. apply writer_ok_otw.
+    - eapply write_to_spec; eauto. apply writer_ok_lower.
+    - destruct t as [s ob]. destruct W as [Ws Wb]. cbn in *. destruct ob as [b|].
+      + unfold bufio_read_from in H. destruct (is_err (b_err b)) eqn:Ee.
+        * inversion H; subst; clear H. split; [split; assumption|]. split; [apply same_shape_refl|].
+          intros E'. rewrite E' in Ee. discriminate.
+        * destruct (bufio_fill A s b (site_data_of A ps)) as [[s1 b1] e1] eqn:Ef.
+          inversion H; subst; clear H.
+          destruct (bufio_fill_spec _ _ _ _ _ _ Ws Wb Ef) as (W1&W2&F&M&C).
+          split; [split; assumption|]. split; [repeat split; assumption|].
+          intros E'. rewrite !content_buf. auto.
+      + destruct (copy_loop A s ps) as [s1 e1] eqn:Ec.
+        inversion H; subst; clear H.
+        destruct (copy_loop_spec _ _ _ _ Ws Ec) as (W1&F&M&C).
+        split; [split; [assumption|exact I]|]. split; [repeat split; assumption|].
+        intros E'. rewrite !content_raw. auto.
+  Qed.
+
+  (** *** Flush/Close *)
+  Notation site := (site A).
+
+  Lemma run_sites_spec : forall chk, (forall k, chk k = true) -> forall (xs : list site) i (t t' : st) e j,
+    wf_st t -> run_sites A true chk i t xs = (t', e, j) ->
+    op_post t t' e (all_data A xs).
+  Proof.
+    intros chk Hchk. induction xs as [|x r IH]; intros i t t' e j W H; cbn [run_sites] in H.
+    - inversion H; subst. split; [exact W|]. split; [apply same_shape_refl|].
+      intros _. cbn. now rewrite app_nil_r.
+    - destruct (run_mech A true (st_mech x) t (st_pieces x)) as [t1 e1] eqn:E.
+      destruct (run_mech_spec _ _ _ _ _ W E) as (W1&S1&C1).
+      rewrite Hchk, andb_true_r in H.
+      destruct (is_err e1) eqn:Ee.
+      + inversion H; subst; clear H. split; [exact W1|]. split; [exact S1|].
+        intros E'. subst. discriminate.
+      + apply is_err_none in Ee. subst e1.
+        destruct (IH _ _ _ _ _ W1 H) as (W2&S2&C2).
+        split; [exact W2|]. split; [eapply same_shape_trans; eauto|].
+        intros E'. rewrite (C2 E'), (C1 eq_refl). unfold all_data. cbn.
+        fold (site_data A x). unfold site_data. now rewrite app_assoc.
+  Qed.
+
+  Lemma init_wf : forall f bs, wf_st (init A f bs).
+  Proof.
+    intros f bs. split.
+    - split; cbn; [reflexivity|]. destruct f; auto; lia.
+    - cbn. destruct bs; [reflexivity|exact I].
+  Qed.
+
+  Lemma init_content : forall f bs, content (init A f bs) = [].
+  Proof. intros f [sz|]; reflexivity. Qed.
+
+  (** a nil error from Close: the destination holds exactly the bytes of all sites *)
+  Lemma close_nil_complete : forall chk, (forall k, chk k = true) ->
+    forall (t : st) (xs : list site) t' i,
+    wf_st t -> close A true chk true t xs = (t', ENone, i) ->
+    wf_st t' /\ same_shape t t' /\ sink_bytes (snk t') = content t ++ all_data A xs.
+  Proof.
+    intros chk Hchk t xs t' i W H. unfold close in H.
+    destruct (run_sites A true chk 0 t xs) as [[t1 e1] i1] eqn:E.
+    destruct (run_sites_spec chk Hchk _ _ _ _ _ _ W E) as (W1&S1&C1).
+    destruct (is_err e1) eqn:Ee.
+    { inversion H; subst. discriminate. }
+    apply is_err_none in Ee. subst e1. specialize (C1 eq_refl).
+    destruct t1 as [s1 ob]. destruct W1 as [Ws Wb]. cbn in *. destruct ob as [b|].
+    - destruct (bufio_flush A s1 b) as [[s2 b2] e2] eqn:Ef.
+      inversion H; subst; clear H.
+      pose proof (bufio_flush_spec _ _ _ _ _ Ws Wb Ef) as P.
+      destruct (fl_ok _ _ _ _ _ P eq_refl) as [Hnil _].
+      split; [split; [apply (fl_wfs _ _ _ _ _ P) | apply (fl_wfb _ _ _ _ _ P)]|].
+      split.
+      + destruct S1 as (A1&A2&A3). repeat split; cbn in *.
+        * rewrite (fl_flt _ _ _ _ _ P). exact A1.
+        * exact A2.
+        * intros Hf. apply (fl_fired _ _ _ _ _ P). auto.
+      + cbn. rewrite <- C1, content_buf, <- (fl_cont _ _ _ _ _ P). unfold cont. rewrite Hnil.
+        change (frev []) with (@nil A). now rewrite app_nil_r.
+    - inversion H; subst; clear H.
+      split; [split; [assumption|exact I]|]. split; [exact S1|].
+      cbn. rewrite <- C1, content_raw. reflexivity.
+  Qed.
+
+  Lemma wf_sink_pos : forall s : sink, wf_sink s -> s_pos s = nlen (sink_bytes s).
+  Proof. intros s [H _]. unfold Model.sink_bytes. rewrite nlen_frev. exact H. Qed.
+
+  Theorem close_nil_means_complete : forall chk, (forall k, chk k = true) ->
+    forall f bs (xs : list site) t' i,
+    close A true chk true (init A f bs) xs = (t', ENone, i) ->
+    sink_bytes (snk t') = all_data A xs.
+  Proof.
+    intros chk Hchk f bs xs t' i H.
+    destruct (close_nil_complete chk Hchk _ _ _ _ (init_wf f bs) H) as (_&_&C).
+    rewrite C, init_content. reflexivity.
+  Qed.
+
+  (** an error of the destination at offset k inside the file is reported *)
+  Theorem err_fault_surfaces : forall chk, (forall k, chk k = true) ->
+    forall k bs (xs : list site) t' e i,
+    k < nlen (all_data A xs) ->
+    close A true chk true (init A (ErrAt k) bs) xs = (t', e, i) ->
+    e <> ENone.
+  Proof.
+    intros chk Hchk k bs xs t' e i Hk H E. subst e.
+    destruct (close_nil_complete chk Hchk _ _ _ _ (init_wf _ bs) H) as (W&(F&_&_)&C).
+    rewrite init_content in C. cbn in C, F.
+    destruct W as [[Hp Hf] _]. rewrite F in Hf.
+    assert (s_pos (snk t') = nlen (all_data A xs)).
+    { unfold Model.sink_bytes in C. rewrite Hp, <- C, nlen_frev. reflexivity. }
+    lia.
+  Qed.
+
+  (** a short count is reported, or it was retried and nothing is missing *)
+  Theorem short_fault_surfaces : forall chk, (forall k, chk k = true) ->
+    forall k bs (xs : list site) t' e i,
+    close A true chk true (init A (ShortAt k) bs) xs = (t', e, i) ->
+    e <> ENone \/ sink_bytes (snk t') = all_data A xs.
+  Proof.
+    intros chk Hchk k bs xs t' e i H. destruct e; [right|left; discriminate|left; discriminate].
+    eapply close_nil_means_complete; eauto.
+  Qed.
+
+  (** *** unbuffered writer: a short count of the destination is always reported
+      (unless the bytes travel below offsetTrackingWriter through
+      memory.Buffer.WriteTo, which retries) *)
+  Definition raw (t : st) : Prop := bw t = None.
+
+  Lemma raw_shape : forall t t', same_shape t t' -> raw t -> raw t'.
+  Proof.
+    intros [s ob] [s' ob'] (_&B&_) R. unfold raw, buffered in *. cbn in *. subst ob.
+    destruct ob'; [discriminate|reflexivity].
+  Qed.
+
+  Definition keeps_fired (t t' : st) (e : err) : Prop :=
+    e = ENone -> s_fired (snk t') = s_fired (snk t).
+
+  Lemma otw_raw_fired : forall (str : bool) (t : st) p t' n e,
+    wf_st t -> raw t ->
+    (if str then otw_write_string A true t p else otw_write A true t p) = (t', n, e) ->
+    keeps_fired t t' e.
+  Proof.
+    intros str [s ob] p t' n e [Ws _] R H. unfold raw in R. cbn in R. subst ob.
+    assert (H' : otw_fix A true (nlen p) (let '(s0, n0, e0) := sink_write A s p in (mkSt s0 None, n0, e0)) = (t', n, e))
+      by (destruct str; exact H).
+    clear H. destruct (sink_write A s p) as [[s1 n1] e1] eqn:E.
+    pose proof (sink_write_spec _ _ _ _ _ Ws E) as P.
+    unfold otw_fix in H'. cbn [andb] in H'.
+    destruct (negb (is_err e1) && (n1 <? nlen p)) eqn:G; inversion H'; subst; clear H'.
+    - intros E'. discriminate.
+    - intros E'. subst. cbn in *. destruct (sw_fired _ _ _ _ _ P) as [F|(L&_&_)]; [exact F|lia].
+  Qed.
+
+  Lemma write_pieces_raw : forall ps (t t' : st) e,
+    wf_st t -> raw t -> write_pieces A true t ps = (t', e) -> keeps_fired t t' e.
+  Proof.
+    induction ps as [|pc ps IH]; intros t t' e W R H; cbn in H.
+    - inversion H; subst. intros _. reflexivity.
+    - destruct (write_piece A true t pc) as [[t1 n1] e1] eqn:E.
+      assert (P : w_post t (snd pc) t1 n1 e1 true).
+      { unfold write_piece in E. destruct (fst pc); [eapply otw_write_string_spec | eapply otw_write_spec]; eauto. }
+      pose proof (otw_raw_fired (fst pc) t (snd pc) t1 n1 e1 W R E) as K.
+      destruct P as (W1&S1&_).
+      destruct (is_err e1) eqn:Ee.
+      + inversion H; subst. intros E'. subst. discriminate.
+      + apply is_err_none in Ee. subst e1. intros E'.
+        rewrite (IH _ _ _ W1 (raw_shape _ _ S1 R) H E'). apply K. reflexivity.
+  Qed.
+
+  Lemma retry_otw_raw : forall fuel c (t t' : st) e,
+    wf_st t -> raw t -> retry A (otw_write A true) fuel t c = (t', e) -> keeps_fired t t' e.
+  Proof.
+    induction fuel as [|f IH]; intros c t t' e W R H.
+    - destruct c; cbn in H; inversion H; subst; intros E'; [reflexivity|discriminate].
+    - destruct c as [|x c]; [cbn in H; inversion H; subst; intros _; reflexivity|].
+      cbn [retry] in H. remember (x :: c) as cc.
+      destruct (otw_write A true t cc) as [[t1 n1] e1] eqn:E.
+      pose proof (otw_raw_fired false t cc t1 n1 e1 W R E) as K.
+      destruct (otw_write_spec _ _ _ _ _ W E) as (W1&S1&_).
+      destruct (is_err e1) eqn:Ee.
+      + inversion H; subst. intros E'. subst. discriminate.
+      + apply is_err_none in Ee. subst e1. intros E'.
+        rewrite (IH _ _ _ _ W1 (raw_shape _ _ S1 R) H E'). apply K. reflexivity.
+  Qed.
+
+  Lemma write_to_otw_raw : forall chunks (t t' : st) e,
+    wf_st t -> raw t -> write_to A (otw_write A true) t chunks = (t', e) -> keeps_fired t t' e.
+  Proof.
+    induction chunks as [|c r IH]; intros t t' e W R H; cbn in H.
+    - inversion H; subst. intros _. reflexivity.
+    - destruct (retry A (otw_write A true) (length (snd c) + 2) t (snd c)) as [t1 e1] eqn:E.
+      pose proof (retry_otw_raw _ _ _ _ _ W R E) as K.
+      destruct (retry_spec _ writer_ok_otw _ _ _ _ _ W E) as (W1&S1&_).
+      destruct (is_err e1) eqn:Ee.
+      + inversion H; subst. intros E'. subst. discriminate.
+      + apply is_err_none in Ee. subst e1. intros E'.
+        rewrite (IH _ _ _ W1 (raw_shape _ _ S1 R) H E'). apply K. reflexivity.
+  Qed.
+
+  Lemma copy_loop_fired : forall chunks (s s' : sink) e,
+    wf_sink s -> copy_loop A s chunks = (s', e) -> e = ENone -> s_fired s' = s_fired s.
+  Proof.
+    induction chunks as [|c r IH]; intros s s' e W H E'; cbn in H.
+    - inversion H; subst. reflexivity.
+    - destruct (sink_write A s (snd c)) as [[s1 n1] e1] eqn:E.
+      pose proof (sink_write_spec _ _ _ _ _ W E) as P.
+      destruct (is_err e1) eqn:Ee; [inversion H; subst; discriminate|].
+      destruct (n1 <? nlen (snd c)) eqn:L; [inversion H; subst; discriminate|].
+      rewrite (IH _ _ _ (sw_wf _ _ _ _ _ P) H E').
+      destruct (sw_fired _ _ _ _ _ P) as [F|(L'&_&_)]; [exact F|lia].
+  Qed.
+
+  Definition no_lower_write_to (xs : list site) : Prop :=
+    forall x, In x xs -> st_mech x <> MLowerWriteTo.
+
+  Lemma run_mech_raw : forall m ps (t t' : st) e,
+    m <> MLowerWriteTo -> wf_st t -> raw t -> run_mech A true m t ps = (t', e) -> keeps_fired t t' e.
+  Proof.
+    intros m ps t t' e Hm W R H. destruct m; cbn [run_mech] in H; try congruence.
+    - eapply write_pieces_raw; eauto.
+    - eapply write_to_otw_raw; eauto.
+    - destruct t as [s ob]. unfold raw in R. cbn in R. subst ob. destruct W as [Ws _]. cbn in *.
+      destruct (copy_loop A s ps) as [s1 e1] eqn:Ec. inversion H; subst; clear H.
+      intros E'. cbn. eapply copy_loop_fired; eauto.
+  Qed.
+
+  Lemma run_sites_raw : forall chk, (forall k, chk k = true) -> forall (xs : list site) i (t t' : st) e j,
+    no_lower_write_to xs -> wf_st t -> raw t ->
+    run_sites A true chk i t xs = (t', e, j) -> keeps_fired t t' e.
+  Proof.
+    intros chk Hchk. induction xs as [|x r IH]; intros i t t' e j Hn W R H; cbn [run_sites] in H.
+    - inversion H; subst. intros _. reflexivity.
+    - destruct (run_mech A true (st_mech x) t (st_pieces x)) as [t1 e1] eqn:E.
+      assert (Hx : st_mech x <> MLowerWriteTo) by (apply Hn; left; reflexivity).
+      pose proof (run_mech_raw _ _ _ _ _ Hx W R E) as K.
+      destruct (run_mech_spec _ _ _ _ _ W E) as (W1&S1&_).
+      rewrite Hchk, andb_true_r in H.
+      destruct (is_err e1) eqn:Ee.
+      + inversion H; subst. intros E'. subst. discriminate.
+      + apply is_err_none in Ee. subst e1. intros E'.
+        assert (Hr : no_lower_write_to r) by (intros y Hy; apply Hn; right; exact Hy).
+        rewrite (IH _ _ _ _ _ Hr W1 (raw_shape _ _ S1 R) H E'). apply K. reflexivity.
+  Qed.
+
+  Theorem short_fault_unbuffered_reported : forall chk, (forall k, chk k = true) ->
+    forall k (xs : list site) t' e i,
+    no_lower_write_to xs -> k < nlen (all_data A xs) ->
+    close A true chk true (init A (ShortAt k) None) xs = (t', e, i) ->
+    e <> ENone.
+  Proof.
+    intros chk Hchk k xs t' e i Hn Hk H E. subst e.
+    destruct (close_nil_complete chk Hchk _ _ _ _ (init_wf _ None) H) as (W&(F&_&_)&C).
+    rewrite init_content in C. cbn in C, F.
+    unfold close in H.
+    destruct (run_sites A true chk 0 (init A (ShortAt k) None) xs) as [[t1 e1] i1] eqn:E.
+    destruct (is_err e1) eqn:Ee; [inversion H; subst; discriminate|].
+    apply is_err_none in Ee. subst e1.
+    pose proof (run_sites_raw chk Hchk _ _ _ _ _ _ Hn (init_wf _ None) eq_refl E eq_refl) as K.
+    destruct (run_sites_spec chk Hchk _ _ _ _ _ _ (init_wf _ None) E) as (_&S1&_).
+    pose proof (raw_shape _ _ S1 eq_refl) as R1. unfold raw in R1. rewrite R1 in H.
+    inversion H; subst; clear H. cbn in K.
+    destruct W as [[Hp Hf] _]. rewrite F in Hf. specialize (Hf K).
+    assert (s_pos (snk t') = nlen (all_data A xs)).
+    { unfold Model.sink_bytes in C. rewrite Hp, <- C, nlen_frev. reflexivity. }
+    lia.
+  Qed.
+
+  (** the table of write sites *)
+  Lemma all_kinds_complete : forall k, In k all_kinds.
+  Proof. destruct k; cbn; tauto. Qed.
+
+  Lemma checked_all : all_sites_checked = true ->
+    (forall k, site_checked k = true) /\ final_flush_checked = true.
+  Proof.
+    unfold all_sites_checked. intros H. apply andb_true_iff in H. destruct H as [H1 H2].
+    split; [|exact H2]. intros k. rewrite forallb_forall in H1. apply H1, all_kinds_complete.
   Qed.
 End SinkProofs.
